@@ -28,6 +28,11 @@ def matrices(rnd, tier):
                 W[i, (i + 1) % n] += 1
             out.append(W / W.sum(axis=1)[:, None])
     out.append(np.array([[0.9, 0.1, 0, 0, 0], [0.1, 0.8, 0.1, 0, 0], [0, 1e-4, 0.9998, 1e-4, 0], [0, 0, 0.1, 0.8, 0.1], [0, 0, 0, 0.1, 0.9]]))   # high barrier
+    # rare events: all reactive fluxes are tiny (below any absolute "round-off" threshold one might be tempted to apply)
+    e = 1e-7
+    out.append(np.array([[1 - e, e, 0, 0], [e, 1 - 2 * e, e, 0], [0, e, 1 - 2 * e, e], [0, 0, e, 1 - e]]))
+    # two strongly coupled intermediates with nearly equal committors (nearly balanced edge between them)
+    out.append(np.array([[0.99, 0.01, 0, 0], [0.001, 0.499, 0.5, 0], [0, 0.5, 0.499, 0.001], [0, 0, 0.01, 0.99]]))
     return out
 
 
